@@ -33,7 +33,9 @@ CHECKS = {
             'normalised, canonical, in the start sector, reported energy equals <H> within the reported truncation, never below '
             'the exact sector minimum; untruncated two-site DMRG with a mixer reaches the minimum of the H-invariant subspace; '
             'EffectiveH.to_matrix equals matvec in a fresh environment; orthogonal_to yields an orthogonal state above lambda_1; '
-            'VUMPS on infinite Ising chains against the exact energy density.',
+            'VUMPS on infinite Ising chains against the exact energy density (also stopped early, also with explicit_plus_hc MPOs); '
+            'infinite DMRG: ledger over sweep() calls for the reported truncation statistics, canonical form, energy density vs '
+            'H_MPO.expectation_value and the exact Ising value; a quarter of the finite models has explicit_plus_hc.',
             'convergence is judged only where the nearest-neighbour terms connect the invariant subspace and a random field breaks '
             'hidden symmetries (elsewhere a stuck local optimisation is a limit of the algorithm); orthogonal_to is judged only for '
             'negative target energies (documented limitation)', 'DESIGN.md §C13'),
@@ -47,7 +49,8 @@ CHECKS = {
             'stays in its charge sector, norm and energy are conserved (exactly for one-site TDVP even when truncating), '
             'evolved_time == start + steps*dt, trunc_err == start + sum of the errors of the truncations performed, and a split of '
             'the time over several run() calls gives the same state; suzuki_trotter_decomposition composes to exactly N_steps on '
-            'even and odd bonds for all N_steps <= 40.',
+            'even and odd bonds for all N_steps <= 40; imaginary-time TEBD sweeps (update_imag) with a truncation ledger, split '
+            'independence and the direction of exp(-tau H); TEBD trunc_err_bonds add up to the step errors.',
             'exactness is judged only where no truncation is requested or reported and (for TDVP) where the manifold is complete '
             '(saturated bonds, or two-site TDVP with nearest-neighbour H); under imaginary steps only the direction of the state is '
             'judged; time-dependent engines are compared with the documented first-order product of exponentials', 'DESIGN.md §C14'),
@@ -74,7 +77,9 @@ CHECKS = {
             'the ~1300 HDF5 data writes) and a complete results file of the last completed or the current checkpoint must remain; '
             '(2) the run is resumed from every recorded checkpoint and must end with the same final state, energy, measurement '
             'history (none lost, none duplicated) and a sweep history that is the exact tail of the uninterrupted one; (3) from the '
-            'file set a first crash leaves, the resumed run is killed at every file-system call of its first save.',
+            'file set a first crash leaves (partial output + backup, complete output, only the backup), the resumed run is killed at '
+            'every file-system call of its first save; (4) engine level: psi, options and get_resume_data() are kept at every '
+            'checkpoint of DMRG runs (with and without orthogonal_to), a fresh engine is resumed and must reproduce the result.',
             'process death = SIGKILL at system-call entry (page-cache contents survive; power loss is out of reach); a checkpoint is '
             'identified by the deterministic part of the results', 'DESIGN.md §C18'),
     'C12': ('exploration', 'dense operator identities evaluated on every configuration of the (finite, exhaustively enumerated) '
@@ -164,7 +169,9 @@ CHECKS = {
             'Every live object is fingerprinted (dense bytes, labels, qtotal, dtype, slices, charges, flags, q_map) before a '
             'step and compared afterwards; only the receiver of an in-place method and arrays documented to share its data '
             'may change, legs never. Results documented as deep copies are then mutated with every public in-place method and '
-            'the operands are re-checked.',
+            'the operands are re-checked. Network part: the tensors, singular values and sites lists of MPS / MPO are fingerprinted '
+            'around accessors, in-place methods on results and on copies, and binary operations with a second state; linalg part: '
+            'operands and shared legs around every factorization.',
             'return-kind table (deep/shallow/in-place) taken from the docstrings', 'DESIGN.md §C03'),
     'C04': ('exploration', 'offline differential checker over per-step observation traces recorded from two interpreter processes '
             '(compiled extension rebuilt from the current .pyx vs TENPY_NO_CYTHON)',
